@@ -13,7 +13,7 @@ a decoded number.
 """
 import json, os, re
 from engine.rules import (MustPass, is_derived, root_fn, calls_to, outcome)
-from engine.sym import strip_deep, render, walk, short
+from engine.sym import strip_deep, render, walk, short, strip
 from engine.callgraph import CallGraph
 from engine import absint
 from props import common as K
@@ -1006,12 +1006,50 @@ def rule_prefix_index(f, site):
     return None
 
 
+def rule_windows(f, site):
+    """P0-windows: `w[k]` with k a constant below n, where w is the element a closure receives from an iterator over
+    `slice.windows(n)` / `chunks_exact(n)` (each yields slices of exactly n elements — std's documented contract)."""
+    if site.kind != "assert:BoundsCheck" or len(site.ops) != 2:
+        return None
+    k = const_eval(site.ops[1])
+    ln = strip_deep(site.ops[0])
+    if k is None or ln[0] != "len":
+        return None
+    base = strip_deep(ln[1])
+    b = site.body
+    n = None
+    if base[0] == "param" and "{closure" in b.name and b.arg_count >= 2 and base[1] == b.local_name(2):
+        # the closure's element parameter: look at what the closure is handed to
+        parent = b.name.rsplit("::{closure", 1)[0]
+        for pn in [parent] + [x for x in f.bodies if x.startswith(parent + "::{closure") and x != b.name]:
+            pb = f.body(pn)
+            if pb is None:
+                continue
+            for c in pb.calls():
+                if c.trait != "std::iter::Iterator" or len(c.args) != 2:
+                    continue
+                a = K.arg_terms(c)
+                ct = strip(a[1])
+                if ct[0] == "closure" and ct[1] == b.name:
+                    m = re.search(r"⟵slice::(windows|chunks_exact)\([^()]*, (\d+)\)$", render(a[0]))
+                    if m:
+                        n = int(m.group(2))
+    else:
+        m = re.match(r"^Iterator::next\(\w*⟵slice::(windows|chunks_exact)\([^()]*, (\d+)\)\)↓Some\.0$", render(base))
+        if m:
+            n = int(m.group(2))
+    if n is not None and 0 <= k < n:
+        return "element %d of a window of exactly %d elements" % (k, n)
+    return None
+
+
 RULES = [("P0-const", lambda f, s, env: rule_const(s)),
          ("P0-arg", lambda f, s, env: rule_arg_const(s)),
          ("P0-len", lambda f, s, env: rule_len_arith(s)),
          ("P0-layout", lambda f, s, env: rule_layout(f, s)),
          ("P0-split", lambda f, s, env: rule_find_split(f, s)),
          ("P0-prefix", lambda f, s, env: rule_prefix_index(f, s)),
+         ("P0-windows", lambda f, s, env: rule_windows(f, s)),
          ("P1-redecode", lambda f, s, env: rule_redecode(f, s, env["ber"], env["memo"])),
          ("P0-absint", lambda f, s, env: rule_absint(f, s))]
 
